@@ -362,5 +362,4 @@ Lemma pres_n2 a a' : AInv a -> astep a a' -> forall h, ~ aopn a' h -> pending (a
 Proof.
   intros I St k. pose proof (i_n2 _ I k) as Hb.
   destruct St; acbn; try exact Hb; hst_cases; cbn; auto.
-  Show.
-Abort.
+Qed.
